@@ -3,7 +3,7 @@ import ComposeVerif.Spec.Interp
 /-!
 # The float casters, structured (round 5)
 
-`utils.ParseYAMLFloat(value, bitSize)` (utils/yamlnumber.go; called by `toFloat` / `toFloat32` of loader/interpolate.go and by
+`utils.ParseYAMLFloat(value, bitSize)` (utils/stringutils.go; called by `toFloat` / `toFloat32` of loader/interpolate.go and by
 `NanoCPUs.DecodeMapstructure` of types/cpus.go):
 
 ```go
